@@ -74,6 +74,13 @@ func (c *Ctx) sharedTypes() map[*types.Named]bool {
 			}
 		}
 	}
+	for _, ents := range c.G.FieldTables {
+		for _, e := range ents {
+			if e.Fn != nil {
+				roots = append(roots, e.Fn)
+			}
+		}
+	}
 	for _, fn := range roots {
 		for i := 0; i < fn.Signature.Results().Len(); i++ {
 			if _, isIface := fn.Signature.Results().At(i).Type().Underlying().(*types.Interface); !isIface {
